@@ -1147,6 +1147,46 @@ def group_hours(rng, n):
     return out
 
 
+def group_matrix(rng, n):
+    """C02 (exhaustive over a small attribute matrix instead of sampled): a three-level resource tree top > sub > member; on
+    every level the working time is declared inline, through a shift (with or without leaves of the shift), or not at all, and
+    every level may be on leave; project default hours declared or not.  3 x 3 x 3 x 2^3 x 2 = 432 projects (n caps the number,
+    taken evenly), one task per project that needs two weeks of the member."""
+    import itertools
+    combos = list(itertools.product(["none", "inline", "shift"], ["none", "inline", "shiftlv"], ["none", "inline", "shift"],
+                                    [False, True], [False, True], [False, True], [False, True]))
+    if n < len(combos):
+        step = len(combos) / float(n)
+        combos = [combos[int(k * step)] for k in range(n)]
+    hours_of = {"top": std_hours(420, 900), "sub": std_hours(720, 1200, range(6)), "mem": {d: [(540, 780), (840, 1080)] for d in range(5)}}
+    out = []
+    for i, (ht, hs, hm, lt, ls, lm, dflt) in enumerate(combos):
+        start = datetime(2025, 3, 3)
+        p = Proj(start=start, G=3600, length="+6w")
+        if dflt:
+            p.default_hours = std_hours(600, 1140)
+
+        def mk(name, kind, parent, leave_day):
+            kw = {}
+            if kind == "inline":
+                kw["hours"] = hours_of[name]
+            elif kind in ("shift", "shiftlv"):
+                sl = [(start + timedelta(days=3), start + timedelta(days=5))] if kind == "shiftlv" else []
+                kw["shift"] = p.add_shift("sh_" + name, hours_of[name], leaves=sl)
+            r = p.add_res(name, parent=parent, **kw)
+            if leave_day is not None:
+                r.leaves.append((start + timedelta(days=leave_day), start + timedelta(days=leave_day + 2)))
+            return r
+        top = mk("top", ht, None, 1 if lt else None)
+        sub = mk("sub", hs, top, 8 if ls else None)
+        mem = mk("mem", hm, sub, 10 if lm else None)
+        other = p.add_res("peer", parent=sub)            # inherits everything
+        p.add_task("work", effort=3600 * 40, alloc=[mem])
+        p.add_task("more", effort=3600 * 24, alloc=[other])
+        out.append(("gmx%04d" % i, p))
+    return out
+
+
 def teams_alts(rng, n):
     """C03: team allocations (same instants), alternatives (exactly one candidate set), sub-slot efforts."""
     out = []
